@@ -53,3 +53,31 @@ Theorem C01_writer_balanced_seq : forall p k vs, forallb wt vs = true -> forall 
   exists ss, write_vals p k vs c = Ok (ss, c).
 Proof. exact writer_balanced_seq. Qed.
 Print Assumptions C01_writer_balanced_seq.
+
+(* tie to the METHOD BODIES (regenerated): Generated/PrimOps.v is the table of the bodies of every TOutputProtocol writer
+   (BytesMut and LinkedBytes flavours) and every TLengthProtocol method of binary.rs / binary_le.rs / compact.rs, lowered
+   by the translator to the small language of Thrift/PrimOp.v.  For every row, the denotation of the body over the byte
+   model (Thrift/PrimOpsSem.v) is the hand-written primitive of Proto.v / Len.v selected by the method's name -- same
+   bytes and same final writer context (resp. same number), same error, same panic -- for the protocol of the row's
+   struct, EVERY buffer kind, argument and writer context the Rust types allow.  A changed method body (write_f64_le
+   turned into write_f64, write_i16 into write_i16_le ...) breaks this theorem, not only the differential run. *)
+From Coq Require Import String.
+From PV Require Import Thrift.Len Thrift.PrimOp Thrift.PrimOpsSem Generated.PrimOps Proofs.PrimOpsP Proofs.PrimOpsTableP.
+Theorem C01_prim_ops_table : forall r, In r prim_ops ->
+  forall p, pk_of (r_proto r) = Some p ->
+  forall k a c, args_ok (r_method r) a c ->
+    (r_class r = "write"%string -> exists w, wspec p k (r_method r) a = Some w /\ fl (run_w p k r a c) = fl (w c)) /\
+    (r_class r = "len"%string -> exists l, lspec p (r_method r) a = Some l /\ run_l p r a c = l c).
+Proof. exact prim_ops_model. Qed.
+Print Assumptions C01_prim_ops_table.
+
+(* buffer independence at the level of the regenerated bodies: the BytesMut and the LinkedBytes flavour of one
+   (protocol, method), zero-copy on or off, denote the same bytes and the same final context *)
+Theorem C01_prim_ops_flavours : forall r1 r2, In r1 prim_ops -> In r2 prim_ops ->
+  r_class r1 = "write"%string -> r_class r2 = "write"%string ->
+  r_proto r1 = r_proto r2 -> r_method r1 = r_method r2 ->
+  forall p, pk_of (r_proto r1) = Some p ->
+  forall k1 k2 a c, args_ok (r_method r1) a c ->
+    fl (run_w p k1 r1 a c) = fl (run_w p k2 r2 a c).
+Proof. exact prim_ops_flavour_independent. Qed.
+Print Assumptions C01_prim_ops_flavours.
